@@ -1,3 +1,4 @@
+import SamplyModel.Model.ContextSwitch
 /-!
 Executable model of samply's perf.data converter (C01, C17, C02, C14, C19), following
 
@@ -20,7 +21,9 @@ symbol classification and the JS label frames are in `Model/ConvFlush.lean`. `--
 time (`ConvFlush.cpuViews`).
 
 Not modelled: unwinding from user stacks (no `user_regs` in generated records), jitdump / marker files,
-kernel modules, simpleperf tables, context-switch records (C12 has the module model), markers, counters,
+kernel modules, simpleperf tables, markers, counters, the per-CPU side of context switches (`Cpu::context_switch_data`,
+idle samples, cpu deltas of the per-CPU copies: `--per-cpu-threads` is modelled only for recordings without
+switch records),
 frame categories, the JIT function recycler of `--reuse-threads` (perf maps and per-CPU threads are modelled
 for `reuse = false` only), files present on disk (`add_module_to_process` case 2 is modelled separately in
 `Model/SvmaBias.lean`).
@@ -40,6 +43,19 @@ inductive Rec
   | comm (pid tid : Nat) (name : String) (isExec : Bool) (t : Nat)
   /-- MMAP2; `t` = `last_timestamp` at dispatch (the record's own timestamp with sample_id_all) -/
   | mmap2 (pid tid addr len pgoff : Nat) (exec : Bool) (path : String) (t : Nat)
+  /-- PERF_RECORD_SWITCH / SWITCH_CPU_WIDE without the SWITCH_OUT misc bit (pid, tid, time from the
+  `sample_id_all` trailer) -/
+  | switchIn (pid tid t : Nat)
+  /-- PERF_RECORD_SWITCH / SWITCH_CPU_WIDE with PERF_RECORD_MISC_SWITCH_OUT (`preempted` only feeds markers) -/
+  | switchOut (pid tid t : Nat)
+  /-- SAMPLE of the event named `sched:sched_switch` (`handle_sched_switch_sample`) -/
+  | sched (pid tid t : Nat) (kernelMode : Bool) (ip : Nat) (chain : List Nat)
+deriving Repr, DecidableEq
+
+/-- `OffCpuIndicator` (event_interpretation.rs:17) -/
+inductive OffCpu
+  | contextSwitches
+  | schedSwitchAndSamples
 deriving Repr, DecidableEq
 
 structure Config where
@@ -55,6 +71,16 @@ structure Config where
   /-- `--per-cpu-threads`: number of CPUs of the recording (0 = option off); the CPU of a sample is a fixed
   function of its timestamp (`cpuOf`), the same in the harness's perf.data writer -/
   ncpu : Nat := 0
+  /-- `interpretation.off_cpu_indicator` (event_interpretation.rs:65-73): `contextSwitches` when the main
+  event's attr has the `context_switch` bit, else `schedSwitchAndSamples` when an event is named
+  `sched:sched_switch`, else none -/
+  offCpu : Option OffCpu := none
+  /-- `off_cpu_sampling_interval_ns` (converter.rs:155-159): the main event's sampling interval in ns when
+  sampling is time based (`1_000_000_000 / freq`, or the period of a cpu-clock / task-clock event), else
+  1 000 000. The attr of recordings without context-switch settings is cpu-clock with period 1 000 000. -/
+  interval : Nat := 1000000
+  /-- `off_cpu_weight_per_sample`: 1 when sampling is time based, else 0 -/
+  offWeight : Nat := 1
 deriving Repr
 
 /-! ## Profile entry tables (the part of `Profile` the converter drives) -/
@@ -132,7 +158,13 @@ structure USample where
   t : Nat
   /-- raw timestamp -/
   tmono : Nat
+  /-- argument of `CpuDelta::from_nanos` (the profile stores `cpu / 1000` µs) -/
   cpu : Nat
+  /-- `SampleData::weight` (an `i32`; never negative here) -/
+  weight : Nat := 1
+  /-- true for the samples synthesized from an off-CPU group (`process_off_cpu_sample_group`); false for
+  the sample made from a SAMPLE record. Ghost: not read by the flush. -/
+  synth : Bool := false
   /-- callee-most first, as `get_sample_stack` builds it -/
   stack : List SFrame
   /-- `thread.thread_label` at the time of the sample: the label frame of the per-CPU copies of this sample
@@ -148,6 +180,11 @@ structure ThreadC where
   h : Nat
   lastTs : Option Nat := none
   name : Option String := none
+  /-- `Thread::context_switch_data` (a new `Thread` starts with `Default::default()`) -/
+  cs : CS.St := CS.St.init
+  /-- `Thread::off_cpu_stack`: the stack of the last `sched:sched_switch` sample (kernel frames removed),
+  callee-most first; cleared by every on-CPU sample and every switch-in -/
+  offStack : Option (List SFrame) := none
 deriving Repr, DecidableEq
 
 /-- `RecyclerByName<ThreadHandle>`: name ↦ handles (the min-heap is modelled by taking the minimum) -/
@@ -185,6 +222,9 @@ structure St where
   procPool : List (String × List ProcRecycle) := []
   /-- `current_sample_time` -/
   cur : Nat
+  /-- a `u64` subtraction / division / debug assertion inside `ContextSwitchHandler` failed
+  (`CS.stepSafe` false): the import has panicked, the state is meaningless from here on -/
+  bad : Bool := false
 deriving Repr
 
 def St.init (cfg : Config) : St := { cfg, cur := cfg.ref }
@@ -451,6 +491,76 @@ def threadLabel (name : Option String) (pid tid : Nat) : String :=
   | some n => n ++ " (pid: " ++ toString pid ++ ", tid: " ++ toString tid ++ ")"
   | none => "Thread " ++ toString tid ++ " (pid: " ++ toString pid ++ ", tid: " ++ toString tid ++ ")"
 
+/-! ### Context switches and off-CPU samples -/
+
+/-- `i32::try_from(n).unwrap_or(0)` (converter.rs:1845) -/
+def i32OrZero (n : Nat) : Nat := if n < 2^31 then n else 0
+
+/-- `process_off_cpu_sample_group` (converter.rs:1811-1857): the sample at the beginning of the paused range
+carries the cpu delta and one unit of weight; if the group stands for more than one sample, a "rest sample" at
+the end carries the other `count - 1` units and cpu delta 0. Both get `begin_timestamp` as raw timestamp
+(converter.rs:1835, 1850). -/
+def offCpuGroup (s : St) (th : Nat) (g : CS.Group) (cpuNs : Nat) (stack : List SFrame) (tlabel : String)
+    (pid tid : Nat) : List USample :=
+  let first : USample := { th, t := conv s g.begin_, tmono := g.begin_, cpu := cpuNs, weight := s.cfg.offWeight,
+                           synth := true, stack, tlabel, gpid := pid, gtid := tid }
+  if g.count > 1 then
+    [first, { th, t := conv s g.end_, tmono := g.begin_, cpu := 0,
+              weight := i32OrZero (g.count - 1) * s.cfg.offWeight, synth := true, stack, tlabel,
+              gpid := pid, gtid := tid }]
+  else [first]
+
+/-- converter.rs:283-301 (sample path, `e = .sample t`) and :854-872 (switch-in, `e = .switchIn t`): feed the
+event to the thread's context-switch data; the tuple `(off_cpu_sample, thread.off_cpu_stack.take())` is built
+first, so the stored off-CPU stack is cleared in every case; only when both are present the pending cpu delta
+is consumed and the group is turned into samples — a group without a stored stack is dropped (its time has
+already left the accumulator). Returns the thread, the emitted samples and whether all checked arithmetic
+succeeded. -/
+def wake (s : St) (th : ThreadC) (e : CS.Ev) (pid tid : Nat) : ThreadC × List USample × Bool :=
+  let safe := CS.stepSafe s.cfg.interval th.cs e
+  let r := CS.step s.cfg.interval th.cs e
+  match r.2.1, th.offStack with
+  | some g, some stk =>
+    let c := CS.step s.cfg.interval r.1 .consume
+    ({ th with cs := c.1, offStack := none },
+      offCpuGroup s th.h g (c.2.2.getD 0) stk (threadLabel th.name pid tid) pid tid, safe)
+  | _, _ => ({ th with cs := r.1, offStack := none }, [], safe)
+
+/-- `UnresolvedStacks::convert_no_kernel`: the stack without its kernel-mode frames -/
+def noKernel (st : List SFrame) : List SFrame :=
+  st.filter (fun f => match f with | .ip _ k => !k | .ret _ k => !k)
+
+/-- the thread-level part of `handle_main_event_sample` after the duplicate check (converter.rs:279-325):
+returns the thread, the samples appended to the process's buffer (a possible off-CPU group, then the sample
+itself) and whether all checked arithmetic succeeded -/
+def sampleThread (s : St) (th : ThreadC) (pid tid t period : Nat) (stack : List SFrame) :
+    ThreadC × List USample × Bool :=
+  let th := { th with lastTs := some t }
+  -- converter.rs:282-301: consume off-cpu time, clear the saved off-CPU stack, maybe emit the group
+  let w := wake s th (.sample t) pid tid
+  -- converter.rs:303-314
+  let c := CS.step s.cfg.interval w.1.cs .consume
+  let thc : ThreadC × Nat := if s.cfg.offCpu.isSome then ({ w.1 with cs := c.1 }, c.2.2.getD 0) else (w.1, period)
+  let u : USample := { th := th.h, t := conv s t, tmono := t, cpu := thc.2, stack,
+                       tlabel := threadLabel th.name pid tid, gpid := pid, gtid := tid }
+  (thc.1, w.2.1 ++ [u], w.2.2)
+
+/-- `ContextSwitchRecord::Out` (converter.rs:928-930) -/
+def switchOutThread (s : St) (th : ThreadC) (t : Nat) : ThreadC × List USample × Bool :=
+  ({ th with cs := (CS.step s.cfg.interval th.cs (.switchOut t)).1 }, [],
+    CS.stepSafe s.cfg.interval th.cs (.switchOut t))
+
+/-- `handle_sched_switch_sample` (converter.rs:403-418): store the stack (kernel frames removed); in
+`SchedSwitchAndSamples` mode the sample also counts as a switch-out -/
+def schedThread (s : St) (th : ThreadC) (t : Nat) (stack : List SFrame) : ThreadC × List USample × Bool :=
+  let th := { th with offStack := some (noKernel stack) }
+  if s.cfg.offCpu == some .schedSwitchAndSamples then switchOutThread s th t else (th, [], true)
+
+/-- store the thread back, append the emitted samples to the process's buffer, record a panic -/
+def commitThread (s : St) (p : ProcC) (tid : Nat) (r : ThreadC × List USample × Bool) : St :=
+  let p := putThread p tid r.1
+  putProc { s with bad := s.bad || !r.2.2 } { p with samples := p.samples ++ r.2.1 }
+
 /-! ### One record -/
 
 def step (s : St) : Rec → St
@@ -460,12 +570,23 @@ def step (s : St) : Rec → St
     let (s, p) := getByPid s pid
     let (s, p, th) := getThread s p tid
     if th.lastTs = some t then s else
-    let th := { th with lastTs := some t }
-    let p := putThread p tid th
-    let u : USample := { th := th.h, t := conv s t, tmono := t, cpu := period,
-                         stack := sampleStack s.cfg km ip chain, tlabel := threadLabel th.name pid tid,
-                         gpid := pid, gtid := tid }
-    putProc s { p with samples := p.samples ++ [u] }
+    commitThread s p tid (sampleThread s th pid tid t period (sampleStack s.cfg km ip chain))
+  | .switchIn pid tid t =>
+    -- handle_context_switch, `ContextSwitchRecord::In` (converter.rs:838-872)
+    if tid = 0 then s else
+    let (s, p) := getByPid s pid
+    let (s, p, th) := getThread s p tid
+    commitThread s p tid (wake s th (.switchIn t) pid tid)
+  | .switchOut pid tid t =>
+    if tid = 0 then s else
+    let (s, p) := getByPid s pid
+    let (s, p, th) := getThread s p tid
+    commitThread s p tid (switchOutThread s th t)
+  | .sched pid tid t km ip chain =>
+    -- tid 0 is not special in `handle_sched_switch_sample`
+    let (s, p) := getByPid s pid
+    let (s, p, th) := getThread s p tid
+    commitThread s p tid (schedThread s th t (sampleStack s.cfg km ip chain))
   | .fork pid tid ppid ptid t =>
     let start := conv s t
     let (s, parent) := getByPid s ppid
